@@ -99,3 +99,11 @@ def extra_coverage(results):
     cov['cases_under_sound_partial'] = sum(1 for j in chk if j['_under'])
     cov['checker_cases'] = len(chk)
     return cov
+
+
+def twins(case):
+    """amplified run: P <-> Pdup, 1 <-> True <-> 1.0, Literal members (see _checker_common.twins); call-level cases: primed twins"""
+    return K.twins(case) + C.twins(case)
+
+
+export_state, import_state = K.export_state, K.import_state      # the name table travels with replays / amplified runs
